@@ -103,6 +103,7 @@ func c102monitor(cw *caseWriter, tag string, in []uint64, obs []uint64) {
 		nops++
 	}
 	p := 0
+	var acked [][2]uint64
 	var maxCommit uint64
 	for step := 0; p < len(obs) && step < nops; step++ {
 		if obs[p] == 2 { // a step whose resulting state was not observed
@@ -134,6 +135,34 @@ func c102monitor(cw *caseWriter, tag string, in []uint64, obs []uint64) {
 		if obs[p-2] > 0 {
 			p += 4
 			p += 1 + 2*int(obs[p])
+		}
+		// the Apply calls acknowledged by this step: every leader of a term at least the highest term now
+		// holding... (checked against the final state below); here: the acknowledged entry is committed
+		// on the acknowledging side at that index with that payload
+		nacks := int(obs[p])
+		p++
+		for k := 0; k < nacks; k++ {
+			acked = append(acked, [2]uint64{obs[p], obs[p+1]})
+			cw.stats["c102_applies_acknowledged"]++
+			p += 2
+		}
+		// C03/C08: what was acknowledged stays: no running server knows that index committed with another payload,
+		// and every leader of the highest term holds it
+		var topTerm uint64
+		for _, nd := range nodes {
+			topTerm = max(topTerm, nd.term)
+		}
+		for _, ak := range acked {
+			for i, nd := range nodes {
+				e, ok := nd.log[ak[0]]
+				if ok && ak[0] <= nd.commit && (e.ty != 0 || e.data != ak[1]) {
+					cw.monitor("C03", tag, "acknowledged-entry-replaced", "step %d: Apply of payload %d was acknowledged at index %d; server %d knows that index committed with %v", step, ak[1], ak[0], i+1, e)
+					cw.monitor("C08", tag, "acknowledged-entry-replaced", "step %d: Apply of payload %d was acknowledged at index %d; server %d knows that index committed with %v", step, ak[1], ak[0], i+1, e)
+				}
+				if nd.role == 2 && nd.term == topTerm && (!ok || e.ty != 0 || e.data != ak[1]) {
+					cw.monitor("C03", tag, "leader-lacks-acknowledged-entry", "step %d: Apply of payload %d was acknowledged at index %d; leader %d of term %d holds %v (present %v)", step, ak[1], ak[0], i+1, nd.term, e, ok)
+				}
+			}
 		}
 		for a := 0; a < n; a++ {
 			for b := 0; b < n; b++ {
